@@ -435,6 +435,22 @@ func (e *Enc) axioms() {
 	}
 }
 
+// DeterministicSelects says that every executed select had exactly one enabled
+// branch when it completed: the runtime has no choice to make, so a replay of
+// such a model does not depend on the runtime's random pick among ready cases.
+func (e *Enc) DeterministicSelects() string {
+	var ts []string
+	for _, n := range e.Nodes {
+		if n.Ev.Kind != "sel" {
+			continue
+		}
+		for i, ch := range n.Ev.Chans {
+			ts = append(ts, fmt.Sprintf("(=> %s (or (= choice_%s %d) (not %s)))", n.X, n.Ev.Key, i, e.closedBefore(ch, n.C)))
+		}
+	}
+	return and(ts)
+}
+
 // Parked: the thread of blocking node n stands before n (its predecessor
 // occurred under the right outcome, n did not).
 func (e *Enc) Parked(n *Node) string {
@@ -508,6 +524,7 @@ func (e *Enc) ModelVars() []string {
 
 // Step of a schedule (events that occurred, by clock).
 type Step struct {
+	Line   int
 	Clock  int64
 	Thread int
 	Kind   string
@@ -555,7 +572,7 @@ func (e *Enc) Schedule(m map[string]string) (steps []Step, cancelled bool, tcanc
 		case "spawn":
 			what = fmt.Sprintf("g%d", n.Ev.Spawned)
 		}
-		steps = append(steps, Step{Clock: c, Thread: n.Thread, Kind: n.Ev.Kind, What: what, Key: n.Ev.Key})
+		steps = append(steps, Step{Clock: c, Thread: n.Thread, Kind: n.Ev.Kind, What: what, Key: n.Ev.Key, Line: n.Ev.Line})
 	}
 	sort.SliceStable(steps, func(i, j int) bool { return steps[i].Clock < steps[j].Clock })
 	return
